@@ -483,7 +483,7 @@ pub fn c04_family(cx: &mut Ctx, fam: &Family) {
     // (b) random longer histories
     let mut rng = cx.rng_for(&format!("c04/{}", fam.name));
     let max_len = cx.args.budget(12, 40, 4);
-    for _ in 0..cx.args.budget(250, 6000, 3) {
+    for _ in 0..cx.args.budget(800, 8000, 3) {
         let start = rng.choose(&vals).clone();
         let len = 2 + rng.below(max_len - 1);
         let steps: Vec<Step> = (0..len).map(|_| random_step(&mut rng, fam, &vals, is_uf)).collect();
